@@ -197,8 +197,8 @@ theorem modes_fuel_generalUnion (t : DebugTrail) {os os' : List (Outcome Val)} (
     · right; simp [generalUnion, h1]
   | first =>
     rcases modes_fuel_firstNonErr h with h1 | ⟨h1, h2⟩
-    · left; simp [generalUnion, h1]
-    · right; simp [generalUnion, h1, h2]
+    · left; simp [generalUnion, unionFirstResult, h1]
+    · right; simp [generalUnion, unionFirstResult, h1, h2]
   | all => exact modes_fuel_unionAll h [] false
 
 theorem modes_fuel_wrapOptional (t : DebugTrail) (d : Val) {o o' : Outcome Val} (h : FuelLe o o') :
